@@ -7,9 +7,11 @@ from lib.flow import Failure
 from props import c16
 
 MANIFEST = {
-    "text": "Theorem C27_decoy (Coq), on the model of the ancestor walk of method lookup: classes and inheritance edges "
-            "registered under nodes the walk from the receiver's class cannot meet change no lookup (a class of the same short "
-            "name in another namespace is another (frame, class) node). Tie: the walk's correspondence with getParentMethodT "
+    "text": "Theorems C27_decoy, C27_rename, C27_wrap (Coq), on the model of the ancestor walk of method lookup: classes and "
+            "inheritance edges registered under nodes the walk from the receiver's class cannot meet change no lookup (a class of "
+            "the same short name in another namespace is another (frame, class) node); the walk commutes with every consistent "
+            "injective renaming of the nodes, and the renaming `module M` performs on frames (F -> M or M::F, CalculateFrame) is "
+            "one for every M (proved for groups that mention no configured class). Tie: the walk's correspondence with getParentMethodT "
             "(C16's hook part, maps with equal class names under different frames); end to end, generated groups of classes "
             "(constants, initialize, methods that use constants and each other, superclasses inside the group) are analysed at "
             "top level, wrapped in one module and in two nested modules with outside references qualified, and next to a "
@@ -17,7 +19,8 @@ MANIFEST = {
             "the analysis of the group and of its uses must be the same up to qualified names.",
     "note": "Trusted: Coq kernel + vm_compute; the wrapping tool (qualifies the group's class names in the uses); constants and "
             "frame computation (CalculateFrame, nameSpaceEvaluation) are exercised end to end only.",
-    "technique": "Coq proof (frame property of the lookup DFS under additional unreachable nodes); correspondence by vm_compute "
+    "technique": "Coq proof (frame property of the lookup DFS under additional unreachable nodes; equivariance of the DFS "
+                 "under node renaming, by induction on fuel); correspondence by vm_compute "
                  "through a build-tag hook; metamorphic wrapping / decoy runs",
 }
 REQUIRES = ["Model/Lookup.v"]
@@ -26,7 +29,8 @@ RULE = ("groups of 2-3 classes with 0-2 constants and 2-4 methods each; variants
         "and a superclass of its own; non-trivial = the decoy defines a constant or a parent method the group mentions")
 TRUSTED = []
 ASSUMPTIONS = ["the group is self-contained: it mentions only its own classes and constants, and builtin literals"]
-PARTIAL = ["wrapping (frame computation, constant lookup): exploration only"]
+PARTIAL = ["wrapping: the lookup walk is proved equivariant (C27_rename, C27_wrap); that `module M` renames the frames this way "
+           "(CalculateFrame at class registration) and constant lookup are exploration only"]
 
 CONSTS = [("LIMIT", "3", "Integer"), ("UNIT", "2.5", "Float"), ("TAG", '"t"', "String"), ("KIND", ":k", "Symbol")]
 DECOY_VALS = {"LIMIT": '"max"', "UNIT": "1", "TAG": ":sym", "KIND": "2.5"}
